@@ -8,15 +8,15 @@ open Rx Rx.Gen.Collect
 def absCollect (g : CollectObserver) : St1 := .collect g.collection
 
 theorem tie_Collect_next (g : CollectObserver) (v : Val) :
-    (CollectObserver.next g v).map (fun r => (absCollect r.1, r.2)) = some (St1.onNext (absCollect g) v) := by
+    (CollectObserver.next g v).map (fun r => (absCollect r.1, r.2)) = some (Rs.lift (St1.onNext (absCollect g) v)) := by
   rcases g with ⟨⟩ <;> rs_tie [CollectObserver.next, absCollect, St1.onNext]
 
 theorem tie_Collect_error (g : CollectObserver) (e : Err) :
-    (CollectObserver.error g e).map (fun r => r.2) = some (St1.onError' (absCollect g) e).2 := by
+    (CollectObserver.error g e).map (fun r => r.2) = some ((St1.onError' (absCollect g) e).2.map Rs.Ev.n) := by
   rcases g with ⟨⟩ <;> rs_tie [CollectObserver.error, absCollect, St1.onError']
 
 theorem tie_Collect_complete (g : CollectObserver) :
-    (CollectObserver.complete g).map (fun r => r.2) = some (St1.onComplete' (absCollect g)).2 := by
+    (CollectObserver.complete g).map (fun r => r.2) = some ((St1.onComplete' (absCollect g)).2.map Rs.Ev.n) := by
   rcases g with ⟨⟩ <;> rs_tie [CollectObserver.complete, absCollect, St1.onComplete']
 
 
